@@ -70,7 +70,7 @@ def parseOp (toks : List String) : Option Op :=
 /-- canonical dump of a MemMapFs model state: one entry per key of the path map, sorted -/
 def snapshot (m : MemFs) : String :=
   let es := m.data.mergeSort fun a b => strLe a.1.render b.1.render
-  let one (e : Key × ObjId) : String :=
+  let one (e : Key × Nat) : String :=
     let d := m.obj e.2
     let listing := if d.dir then ",".intercalate ((m.dirFiles d).map fun o => hx (baseName (m.obj o).name)) else ""
     s!"{hx e.1.render}:{if d.dir then "d" else "f"}:{if d.dir then 42 else d.data.length}:{d.mode}:{if d.dir then "-" else hexOrDash d.data}:{listing}"
